@@ -5,12 +5,14 @@ package diff
 //   ROUTESIZE \t <defaultRouteSize>
 //   D \t <class> \t <a> \t <b> \t <result>       one line per case; values and diffs in the term language of
 //                                                 /verif/coq/Diff/Run.v (vI vS vB vT vL vM / DL DS DM / EC ED EA ER / KD KR KA)
+//                                                 numbers: vTrue vFalse, (vF f) with f = fNaN fPInf fNInf fNZ (fH n) (fHn n) = +-n/2
 //   ORACLE \t <name> \t <a> \t <b> \t <detail>   one line per direct failure of the property on the implementation
 //   BIG \t <name> \t <ok|fail detail>            route-table exhaustion cases (oracle only)
 
 import (
 	"bufio"
 	"fmt"
+	"math"
 	"math/rand"
 	"os"
 	"strconv"
@@ -24,9 +26,33 @@ func c16val(v starlark.Value) string {
 	switch v := v.(type) {
 	case starlark.NoneType:
 		return "vN"
+	case starlark.Bool:
+		if v {
+			return "vTrue"
+		}
+		return "vFalse"
 	case starlark.Int:
 		n, _ := v.Int64()
 		return fmt.Sprintf("(vI %d)", n)
+	case starlark.Float:
+		// the floats of the model: NaN, the infinities, -0.0 and the multiples of one half (exact)
+		f := float64(v)
+		switch t := 2 * f; {
+		case f != f:
+			return "(vF fNaN)"
+		case math.IsInf(f, 1):
+			return "(vF fPInf)"
+		case math.IsInf(f, -1):
+			return "(vF fNInf)"
+		case f == 0 && math.Signbit(f):
+			return "(vF fNZ)"
+		case t == math.Trunc(t) && math.Abs(t) < 1<<52:
+			if t < 0 {
+				return fmt.Sprintf("(vF (fHn %d))", int64(-t))
+			}
+			return fmt.Sprintf("(vF (fH %d))", int64(t))
+		}
+		return "<?float>"
 	case starlark.String:
 		return "(vS " + c16bytes(string(v)) + ")"
 	case starlark.Bytes:
@@ -295,13 +321,13 @@ func c16oracle(d ValueDiff, a, b starlark.Value) (fails []string) {
 				}
 			}
 		}
-		seen := map[string]bool{}
+		seen := starlark.NewDict(0) // keys as a dict sees them: 1 and 1.0 are ONE key
 		for _, m := range []starlark.IterableMapping{am, bm} {
 			it := m.Iterate()
 			var k starlark.Value
 			for it.Next(&k) {
-				if !seen[c16val(k)] {
-					seen[c16val(k)] = true
+				if _, found, _ := seen.Get(k); !found {
+					seen.SetKey(k, starlark.None)
 					check(k)
 				}
 			}
@@ -765,6 +791,9 @@ func TestVerifC16(t *testing.T) {
 			}
 		}
 	}
+
+	// 5d. numbers: elements that are equal without being of one type (1 == 1.0), and unequal ones that look alike
+	c16numbers(g, rng, geti("VERIF_NUMLEN", 3), geti("VERIF_NUMALPHA", 4), nRand)
 
 	// 6. route-table exhaustion (more than defaultRouteSize snake points): oracle only
 	if big > 0 {
